@@ -24,9 +24,9 @@ from checks import translate_tie  # noqa: E402  (reused: _enclosing, COQ_MEM_KB)
 TDIR = os.path.join(vlib.COQ, "translate")
 _LEMMA = re.compile(r"^\s*Lemma\s+(TP_(\w+?)_eq)\b", re.M)
 # operations of Dbc/Parser.v (and below) that remain HAND MODEL ONLY, tied to the code by the differential run
-HAND_ONLY = ["Parser.nextToken / peekToken (p_look + Scanner.sc_scan)", "Parser.nextRune / peekRune (sc_Next / sc_peek)",
+HAND_ONLY = ["PREMISE carried by TP_Parser_int_eq (not proved): the float value of the number token Parser.int converts is non-negative (parse_float txt = Some b -> 0 <= b < 2^63: the scanner delivers a sign as a separate token)", "Parser.nextToken / peekToken (p_look + Scanner.sc_scan)", "Parser.nextRune / peekRune (sc_Next / sc_peek)",
              "Parser.useWhitespace (set_ws)", 
-             "Parser.int (DecFloat.int_of_token: the F12 conversion arithmetic)", "Parser.anyOf (variadic range)",
+             "Parser.anyOf (variadic range)",
              "Parser.failf / parseError (PErr; the error kind ESyntax / EValue is the model's classification of the message text)",
              "strconv.Atoi / ParseUint / ParseFloat (DecFloat.v; num oracle stream)",
              "the Validate methods / enumeration conversions (ident_valid, msgid_valid, object_type_of, attr_type_of, "
